@@ -348,11 +348,13 @@ class Expr:
 
     def parse_Subscript(self):
         sub = Expr(self.expr.value, self.context).ir_node
-        if sub.value == "multi":
+        if sub.value == "multi" or sub.is_empty_intrinsic:
             # force literal to memory, e.g.
             # MY_LIST: constant(decimal[6])
             # ...
             # return MY_LIST[ix]
+            # (likewise `empty(uint256[2])[ix]`: a zeroed buffer gets the
+            # ordinary bounds check)
             sub = ensure_in_memory(sub, self.context)
 
         if isinstance(sub.typ, HashMapT):
